@@ -43,6 +43,13 @@ def replay(case, acc):
                 return
         acc.count('C18:hand_driven_runs', 5)
         return
+    if 'aborting_run' in case:
+        from qsmon import core
+        try:
+            pairwl.aborting_run_case(case['aborting_run'], acc)
+        except core.Violation as v:
+            acc.violation(v, case)
+        return
     pairwl.run_c18_case(case, acc)
 
 
